@@ -51,10 +51,23 @@ C05_STEPS = [
 ]
 CHAN_LOOPS = ("--max-field-sensitivity-array-size 2048 --unwindset _RNvNtNtCs2jm5Ny5fF8r_11signal_hook9low_level7channel7dequeue.0:5,"
               "_RNvNtNtCs2jm5Ny5fF8r_11signal_hook9low_level7channel7enqueue.0:5")
+CHAN_LOOPS6 = CHAN_LOOPS.replace(".0:5", ".0:6")
+C08_SPURIOUS = H("c06::proofs::c08_q_spurious_cas_failures", Q, timeout=2400, judge_repo_panics=True, judge_repo_unwind=True, also=["C06", "C08"], cbmc_args=CHAN_LOOPS6,
+    what="send then recv with up to three spurious weak-CAS failures anywhere and no other operation running: nothing discarded or reported empty early, no panic, steps bounded by the failures",
+    bounds="<=3 spurious failures per harness; CAS loops bounded to 5 iterations by --unwindset")
 def C08H(name, what, tiers=Q):
     return H("c06::proofs::" + name, tiers, timeout=2400, judge_repo_panics=True, judge_repo_unwind=True, also=["C06"], cbmc_args=CHAN_LOOPS,
              what=what + ": no panic, no waiting (the two CAS loops are bounded to 4 iterations: first attempt + 1 interruption + 1 spurious failure + 1 spare), own steps bounded, tags conserved and ordered",
              bounds="NEST depth 1, 1 nested operation at any shim point, 1 spurious weak-CAS failure, concrete pre-state; CAS loops bounded by --unwindset (exceeding it is reported as waiting)")
+def C08E(name, what, tiers=Q):
+    return H("c06::proofs::" + name, tiers, timeout=2400, judge_repo_panics=True, judge_repo_unwind=True, also=["C06", "C10"], cbmc_args=CHAN_LOOPS,
+             what=what + ", the nested operation running right AFTER each successful CAS of the outer operation in turn (the boundary the symbolic harnesses, which interrupt before each shim operation, do not have): no panic, no waiting, tags conserved and ordered",
+             bounds="1 nested operation at a concrete boundary index (every successful CAS of the outer operation), no spurious failure, concrete pre-state")
+C08_ENUM = [C08E("c08_enum_send_in_send", "send() interrupted by a send, 2 queued"),
+            C08E("c08_enum_send_in_recv", "recv() interrupted by a send, 2 queued"),
+            C08E("c08_enum_send_in_recv_full", "recv() on a full channel interrupted by a send"),
+            C08E("c08_enum_send_in_send_last_slot", "send() interrupted by a send, 4 queued"),
+            C08E("c08_enum_recv_in_recv", "recv() interrupted by a recv, 2 queued")]
 C09_DISP = [
     H("c09::proofs::c09_nest_delivery_inside_consumer_dispatcher", T, also=["C10"], timeout=2400,
       what="as c09_nest_delivery_inside_consumer, every delivery going through the kernel model and the registry's real dispatcher instead of calling the registered action directly",
@@ -76,6 +89,9 @@ C11_NEST = [
       bounds="NEST depth 1, close before or inside the call"),
     H("c09::proofs::c11_nest_close_inside_wait", Q, also=["C10"], timeout=2400,
       what="close() nested anywhere inside a blocking wait; two later waits must return", bounds="NEST depth 1"),
+    H("c09::proofs::c11_seq_frontend_wait_after_close", Q, also=["C10"], timeout=2400,
+      what="the real front-end object (Signals::new, handle, close, is_closed, wait x3 and pending): after close() returned no wait sleeps, also once close()'s wake-up byte has been consumed",
+      bounds="sequential, 1 signal"),
     H("c09::proofs::c11_nest_consumer_inside_close", Q, also=["C10"], timeout=2400,
       what="the consumer of another thread (woken by a byte, iterating, going back to sleep) nested at the store and the system call of close(): when close() returns no consumer sleeps without a wake-up written after it fell asleep; later waits return",
       bounds="NEST depth 1, <=2 nested consumer iterations at one point"),
@@ -85,6 +101,7 @@ C12_ALL = [
     H("c12::proofs::c12_survives_poisoned_lock", Q, what="from 'ids lock poisoned by an earlier caught panic': add_signal of a valid signal completes and takes effect", bounds="-"),
     H("c12::proofs::c12_err_path_signal_only", Q, timeout=2400, what="kernel-rejected add_signal: Err, nothing changes, retry identical, later valid add works, re-add is a no-op, earlier signal still delivered (SignalOnly)", bounds="-"),
     H("c12::proofs::c12_failed_with_pipe_leaves_nothing", Q, what="the constructor behind Signals::new / SignalsInfo::with_exfiltrator fails on its second signal: nothing stays registered, both pipe ends closed exactly once, no action of the failed instance runs later", bounds="2 signals, second rejected by the kernel"),
+    H("c12::proofs::c12_handle_outlives_instance", Q, timeout=2400, what="a handle outlives the instance object and adds a signal (twice): registrations stay while a handle exists and are all gone once the last handle is dropped", bounds="2 signals"),
     H("c12::proofs::c12_drop_with_poisoned_lock", T, timeout=2400, what="dropping an instance whose ids lock was poisoned by a caught panic completes and unregisters", bounds="-"),
     H("c12::proofs::c12_err_path_raw_siginfo", Q, what="same with WithRawSiginfo (lazily initialised per-signal channel)", bounds="-"),
 ]
@@ -94,11 +111,13 @@ def c14(e, tiers):
 
 CATALOGUE = {
     "C01": [C01_LR,
+            H("c01::proofs::c01_q_actions_run_inside_read_section", Q, what="registry level: every action invocation of a delivery happens inside an open read section of the data lock (the one unregister's barrier waits for); no section left open", bounds="2 actions, 2 deliveries, sequential"),
             H("c01::proofs::c01_lr_w1x2_r1x2_k4", T, lr=True, timeout=3000,
               what="real half_lock.rs: 1 writer thread x 2 store(), 1 reader thread with two consecutive read sections (second one in the other generation slot)",
               bounds="Lal-Reps K=4 rounds, 2 threads, spin bound 4, unwind 8")],
     "C02": [C05_CONCRETE,
             H("c05::proofs::c02_q_removed_id_used_again", Q, what="register, unregister(id), register, unregister(the same id again), deliver: exactly the one registered and never removed action runs", bounds="1 signal, concrete history"),
+            H("c02::proofs::c02_enum_register_vs_register", Q, timeout=2400, what="register() with a complete register() + delivery of another thread at every point of it at which the writer mutex is free (point index enumerated by a concrete loop): what the observing delivery ran stays an in-order prefix of what later deliveries run", bounds="1 nested (register; deliver) at each of <=9 points"),
             C05_UNREG_ANY,
             H("c05::proofs::c05_step_deliver", T, timeout=3000, what="one delivery from any valid state", bounds="symbolic state"),
             H("c02::proofs::c02_nest_unregister", Q, timeout=2400, what="deliveries nested at every shim point of unregister(): each runs the old or the new action list", bounds="NEST depth 1, <=2 nested deliveries"),
@@ -114,12 +133,15 @@ CATALOGUE = {
         H("c04::proofs::c04_chain_first_registration", Q, timeout=2400, what="same with the kernel delivering at every shim point / system call of the first registration (nested on the registering thread), and of another signal's first registration", bounds="NEST depth 1, <=2+1 nested deliveries"),
         H("c04::proofs::c04_lr_chain_vs_registration", T, lr=True, timeout=3600, what="thread 0 performs the first registration of the signal (then of another signal) while thread 1 receives the signal twice at any instant", bounds="Lal-Reps K=3, 2 threads"),
     ],
-    "C05": [C05_CONCRETE, C05_FRESH, C05_FRESH2, C05_UNREG_ANY] + C05_STEPS,
+    "C05": [C05_CONCRETE, C05_FRESH, C05_FRESH2,
+            H("c05::proofs::c05_q_stays_installed_over_foreign_handler", Q, what="a foreign handler was installed before the take-over: after the last action is removed (by id or by signal) the library's handler with SA_RESTART|SA_SIGINFO is still the disposition; re-registration works", bounds="1 signal, concrete history, both removal calls"),
+            C05_UNREG_ANY] + C05_STEPS,
     "C06": [
         H("c06::proofs::c06_seq_send_step", Q, what="one send() from any well-formed channel state (<=2 indices in flight) vs 5-bounded FIFO", bounds="all queue words satisfying the representation invariant; payload u8"),
         H("c06::proofs::c06_seq_recv_step", Q, what="one recv() from any well-formed channel state vs FIFO pop", bounds="as above"),
         H("c06::proofs::c06_new_is_empty", Q, what="Channel::new() is empty and well-formed", bounds="-"),
         C08H("c08_q_send_in_send", "nested clause of C06: send() interrupted by a complete send (both take an index from the same free list)"),
+        C08_SPURIOUS, C08_ENUM[2],
     ],
     "C07": [
         H("c07::proofs::c07_lr_reuse_k3", Q, lr=True, what="consumer takes the only queued value, producer's send reuses that cell: happens-before under declared orderings, drops", bounds="Lal-Reps K=3, 2 threads, <=1 spurious CAS failure"),
@@ -127,18 +149,19 @@ CATALOGUE = {
         H("c07::proofs::c07_lr_p1x2_c1_k3", T, lr=True, timeout=3600, what="1 producer (2 sends), 1 consumer (2 recvs): cell races, exactly-once drop, FIFO clauses", bounds="Lal-Reps K=3, 2 threads, <=1 spurious CAS failure"),
         H("c07::proofs::c07_lr_p2_c1_k3", T, lr=True, timeout=3600, what="2 producers (1 send each), 1 consumer (2 recvs): cell races, exactly-once drop, FIFO clauses", bounds="Lal-Reps K=3, 3 threads, <=1 spurious CAS failure"),
     ],
-    "C08": [C08H("c08_q_send_in_send", "send() interrupted by a complete send (signal handler on the same thread), 2 values queued"),
+    "C08": [C08_SPURIOUS, C08H("c08_q_send_in_send", "send() interrupted by a complete send (signal handler on the same thread), 2 values queued"),
             C08H("c08_q_send_in_recv", "recv() interrupted by a complete send, 2 values queued"),
             C08H("c08_q_send_in_send_last_slot", "send() interrupted by a send that takes the last free slot (4 queued)"),
             C08H("c08_q_recv_in_recv", "recv() interrupted by a complete recv (second consumer), 2 values queued"),
             C08H("c08_q_recv_in_send_full", "send() on a full channel interrupted by a recv that frees a slot"),
-            C08H("c08_q_send_in_recv_full", "recv() on a full channel interrupted by a send (which finds no slot, or the one recv has just freed)", T)],
+            C08H("c08_q_send_in_recv_full", "recv() on a full channel interrupted by a send (which finds no slot, or the one recv has just freed)", T)] + C08_ENUM,
     "C09": C09_NEST + C09_DISP + [H("c09::proofs::c10_seq_counts_signal_only", T, also=["C10"], timeout=2400, what="sequential histories of deliveries and pending() batches", bounds="3 steps")],
     "C10": [H("c09::proofs::c10_seq_counts_signal_only", Q, also=["C09"], timeout=2400, what="histories of deliveries and pending() batches (SignalOnly): a burst collapses to one report, nothing reported twice, yields <= deliveries", bounds="3 deliveries, 3 batches"),
             H("c09::proofs::c10_seq_raw_records_burst7", Q, also=["C09"], timeout=2400, what="WithRawSiginfo end to end (real dispatcher, exfiltrator, channel): 7 deliveries with symbolic payloads in one burst (buffer holds 5), an unwatched signal in between: every record is a faithful copy of one delivery, in delivery order, at most one per delivery, none twice", bounds="7 deliveries; si_code and 8 payload bytes symbolic per delivery; batch points concrete"),
             H("c09::proofs::c10_seq_raw_records_3_4", Q, also=["C09"], timeout=2400, what="same, a batch after 3 deliveries and one after 4 more", bounds="as above"),
-            H("c09::proofs::c10_nest_raw_delivery_inside_load", Q, also=["C09"], timeout=2400, what="WithRawSiginfo: five deliveries fill the buffer, a sixth lands at any shim point of the consumer's first load (slot pointer, channel words, cell): records faithful, in order, at most one per delivery", bounds="NEST depth 1, 1 nested delivery (registered action invoked directly)"),
+            H("c09::proofs::c10_enum_raw_delivery_inside_batch", Q, also=["C09"], timeout=2400, what="WithRawSiginfo: five deliveries fill the buffer, a sixth lands at each of the first 7 cell-access / after-successful-CAS boundaries of the batch in turn (first two loads): records faithful, in order, at most one per delivery, none twice", bounds="1 nested delivery (registered action invoked directly) at a concrete boundary index 0..6; payloads symbolic"),
             H("c09::proofs::c10_seq_raw_records_6_1", T, also=["C09"], timeout=2400, what="same, a batch after 6 deliveries and one after the 7th", bounds="as above"),
+            C08_ENUM[2],
             ] + C09_NEST[:1] + C09_DISP[:1],
     "C11": C11_NEST,
     "C12": C12_ALL,
@@ -170,6 +193,7 @@ CATALOGUE = {
           what="Origin::extract (real Rust + real extract.c) on every 128-byte siginfo_t", bounds="all 2^1024 byte patterns; x86-64 Linux layout"),
     ],
     "C18": [
+        H("c18::proofs::c18_q_mutators_wait_for_nobody", Q, what="register / unregister (live, stale) / unregister_signal with no delivery in flight: no spinning at all, and no read section of either registry lock is held at the moment a writer mutex is taken (two such mutators would wait for each other forever)", bounds="6 mutator calls on 2 signals, sequential"),
         H("c18::proofs::c18_seq_barrier_completes_when_idle", Q, what="two store() from any generation value with idle reader slots complete without a second spin", bounds="generation: all of usize"),
         H("c18::proofs::c18_lr_barrier_progress", Q, lr=True, what="two readers finished by round K-2, the writer (last in each round) must be through its barrier in round K-1", bounds="Lal-Reps K=3, 3 threads"),
         H("c18::proofs::c18_registry_tolerates_poison", Q, what="both registry writer mutexes poisoned: register/deliver/unregister still work; lock order data->fallback only", bounds="-"),
